@@ -37,6 +37,7 @@ def install(eng):
     b['method.copy'] = lambda eng, e, st, val, valexpr, args, kw: val
     b['collections:Counter'] = _counter_new
     b['method.clear'] = _dict_clear
+    b['method.get'] = _rec_get
     install_config(eng)
     b['heapq.heappush'] = _heappush
     b['sys.setrecursionlimit'] = lambda eng, e, st, args, kw: PNone()
@@ -407,7 +408,10 @@ def _cfg_set(eng, e, st, args, kw):
     return PNone()
 
 
-def _cfg_get_raw(eng, e, st, args):
+def _cfg_get_raw(eng, e, st, args, kw=None):
+    if kw or len(args) > 3:
+        # fallback= / raw= / vars= change what a missing option does: not modelled (a model that ignored them would report a missing option as unsafe)
+        raise Unsupported('ConfigParser.get*() with fallback / raw / vars')
     obj = args[0]
     _use(eng, 'ConfigParser.set/get/getfloat/getint/has_option behave as a map (section, option) -> str')
     opts = obj.fields['opts']
@@ -417,21 +421,21 @@ def _cfg_get_raw(eng, e, st, args):
 
 
 def _cfg_get(eng, e, st, args, kw):
-    return ZV(TStr, _cfg_get_raw(eng, e, st, args))
+    return ZV(TStr, _cfg_get_raw(eng, e, st, args, kw))
 
 
 def _cfg_getfloat(eng, e, st, args, kw):
     _use(eng, 'float(repr(x)) == x for every finite float x (shortest round-trip repr)')
     st.assume(float_roundtrip_axiom())
-    return ZV(TF, s_tofloat(_cfg_get_raw(eng, e, st, args)))
+    return ZV(TF, s_tofloat(_cfg_get_raw(eng, e, st, args, kw)))
 
 
 def _cfg_getint(eng, e, st, args, kw):
-    return ZV(TInt, s_toint(_cfg_get_raw(eng, e, st, args)))
+    return ZV(TInt, s_toint(_cfg_get_raw(eng, e, st, args, kw)))
 
 
 def _cfg_getboolean(eng, e, st, args, kw):
-    return ZV(TBool, s_tobool(_cfg_get_raw(eng, e, st, args)))
+    return ZV(TBool, s_tobool(_cfg_get_raw(eng, e, st, args, kw)))
 
 
 def _cfg_remove(eng, e, st, args, kw):
@@ -800,6 +804,15 @@ def _counter_new(eng, e, st, args, kw):
 def empty_dict(shape):
     return shape.mk(z3.K(shape.k.sort(), z3.BoolVal(False)), z3.K(shape.k.sort(), z3.IntVal(0) if shape.v == TInt else T.F_ZERO)
                     if shape.v in (TInt, TF) else z3.Const('dict_empty_values_' + T._san(shape.key()), z3.ArraySort(shape.k.sort(), shape.v.sort())))
+
+
+def _rec_get(eng, e, st, val, valexpr, args, kw):
+    """d.get('literal') on a record (a dict with a fixed set of literal keys): the field, or None for a key the record does not have.
+    A default argument or a computed key is outside the subset."""
+    if isinstance(val, PRec) and len(args) == 1 and not kw and isinstance(args[0], ZV) and isinstance(args[0].pyval, str):
+        k = args[0].pyval
+        return val.fields[k] if k in val.fields else PNone()
+    raise Unsupported('.get() other than record.get(<string literal>)')
 
 
 def _dict_clear(eng, e, st, val, valexpr, args, kw):
